@@ -109,6 +109,7 @@ retry:
 		// and make next node as current node.
 		// If it fails, refresh the path buffer and obtain new current node.
 		if it.s.helpDelete(0, it.prev, it.curr, next, &it.s.Stats) {
+			verifYield(vpIterHelped, unsafe.Pointer(it.s))
 			it.curr = next
 		} else {
 			atomic.AddUint64(&it.s.Stats.readConflicts, 1)
